@@ -38,4 +38,8 @@ PROPS = {
             "the full render/tokenize law is evaluated on the implementation (search), its unbounded proof is pending",
         ],
     },
+    "C01": {
+        "suites": ["pipeline", "programs"],
+        "assumptions": ["progress is decided per program on the implementation (search) and by the stuck-term classification theorem on the model; subject reduction is not proved"],
+    },
 }
